@@ -22,15 +22,35 @@
 (*                  (select l.done / <-l.conns) -> ret                     *)
 (*   reader of an accepted connection (the application): reads whatever    *)
 (*                  the connection yields.                                 *)
+(*   Route caller   the critical section under m.mu (lookup, or creation,   *)
+(*                  registration and start of the monitor) is one step; a  *)
+(*                  caller that finds m.mu held (Run waiting for the       *)
+(*                  listeners) is rpend: parked on m.mu -> RouteTake       *)
 (* Stimuli (the environment / the director of the harness): run, route,    *)
 (* incoming connection, base Accept error, client write of n bytes, client *)
 (* close, Accept call, listener Close, ctx cancel.                         *)
+(*                                                                         *)
+(* Registration (what mux.go does, not what one might wish): a prefix p is *)
+(* registered iff m.routes has an entry for it.  Route(p) returns the      *)
+(* entry's listener if there is one - also when that listener has already  *)
+(* been closed and its monitor has not yet deleted the entry: the caller   *)
+(* then holds a closed listener and p becomes unregistered as soon as the  *)
+(* monitor runs - and otherwise creates listener <<p, gen+1>>, registers   *)
+(* it and starts its monitor.  The entry is removed only by the monitor of *)
+(* the listener it refers to, after that listener was closed (by Close or  *)
+(* by the mux stopping).  Connections whose first bytes are p are looked   *)
+(* up under m.mu: entry => that listener (prefix consumed), no entry =>    *)
+(* default listener with the prefix replayed.                              *)
 (*                                                                         *)
 (* Gen = FALSE: stimuli and internal steps interleave freely (design       *)
 (* check).  Gen = TRUE: a stimulus happens only when no internal step is   *)
 (* enabled (quiescence) - the behaviours a director can realise on the     *)
 (* real code; with Hist the stimuli and the observation at each quiescent  *)
-(* point are kept and emitted.                                             *)
+(* point are kept and emitted.  A stimulus flagged b = 1 (kinds            *)
+(* BurstFirst) is followed by the next one (kinds BurstNext) WITHOUT       *)
+(* waiting for quiescence: the director issues both back to back from one  *)
+(* goroutine, and the specification lets the internal steps the first one  *)
+(* enabled run before, between and after in every order.                   *)
 (***************************************************************************)
 EXTENDS Integers, Sequences, FiniteSets, TLC, Json
 
@@ -43,28 +63,32 @@ CONSTANTS PrefixLen,   \* number of bytes routeConn reads
           Lims,        \* set of stimulus budgets (Gen mode)
           Allowed,     \* the stimuli the environment uses (StimSet, or a subset that focuses the generated behaviours)
           PreRoutes,   \* prefixes whose Route call has been made (listener created, monitor parked) in the initial state
+          BurstFirst,  \* stimulus kinds that may be flagged b = 1: the next stimulus does not wait for quiescence (Gen mode)
+          BurstNext,   \* stimulus kinds that may follow a flagged stimulus before quiescence
           RunFirst,    \* TRUE: Run has been started (and is parked on <-m.done) in the initial state
           Gen, Hist
 
-VARIABLES pay, lim, nstim, hist,                    \* configuration and history
+VARIABLES pay, lim, nstim, hist, bnext,             \* configuration and history; bnext: the last stimulus was flagged b
           sent, ceof,                               \* client side: bytes written so far, closed
           cst, tgt, wrapped, cons, by, got, geof,   \* per connection, server side
+          lkl,                                      \* per connection (history): the live listener handed out for its first bytes when it was looked up
           baseQ, baseClosed, mbase,                 \* base listener and monitorBase
           done, merr, once, mu, routes, gen, rret,  \* mux
+          rpend,                                    \* prefix of the Route call in progress ("" = none)
           lex, ldone, lerr, mon,                    \* per listener
           run, rerr, mctx, cancelled,               \* Run, monitorContext
           apc, alis, ares, alate                    \* Accept callers
 
-meta    == <<pay, lim, nstim, hist>>
+meta    == <<pay, lim, nstim, hist, bnext>>
 cliV    == <<sent, ceof>>
-connV   == <<cst, tgt, wrapped, cons, by, got, geof>>
+connV   == <<cst, tgt, wrapped, cons, by, got, geof, lkl>>
 baseV   == <<baseQ, baseClosed, mbase>>
-muxV    == <<done, merr, once, mu, routes, gen, rret>>
+muxV    == <<done, merr, once, mu, routes, gen, rret, rpend>>
 lisV    == <<lex, ldone, lerr, mon>>
 runV    == <<run, rerr, mctx, cancelled>>
 accV    == <<apc, alis, ares, alate>>
 vars    == <<meta, cliV, connV, baseV, muxV, lisV, runV, accV>>
-view    == <<pay, cliV, connV, baseV, <<done, merr, once, mu, routes, gen>>, lisV, runV, <<apc, alis, ares>>>>   \* without history, last Route result and alate (derived)
+view    == <<pay, bnext, cliV, connV, baseV, <<done, merr, once, mu, routes, gen, rpend>>, lisV, runV, <<apc, alis, ares>>>>   \* without history, last Route result and alate (derived)
 viewn   == <<view, nstim>>
 
 Def    == <<"def", 0>>
@@ -81,15 +105,16 @@ Key(c) == Cat(SubSeq(pay[c], 1, PrefixLen))          \* the bytes ReadFull consu
 Stream(c) == (IF wrapped[c] THEN SubSeq(pay[c], 1, cons[c]) ELSE <<>>) \o SubSeq(pay[c], cons[c] + 1, sent[c])
 
 Init ==
-  /\ pay = [c \in Conns |-> <<>>] /\ lim \in Lims /\ nstim = 0 /\ hist = <<>>
+  /\ pay = [c \in Conns |-> <<>>] /\ lim \in Lims /\ nstim = 0 /\ hist = <<>> /\ bnext = FALSE
   /\ sent = [c \in Conns |-> 0] /\ ceof = [c \in Conns |-> FALSE]
   /\ cst = [c \in Conns |-> "new"] /\ tgt = [c \in Conns |-> NoLis]
   /\ wrapped = [c \in Conns |-> FALSE] /\ cons = [c \in Conns |-> 0]
   /\ by = [c \in Conns |-> 0] /\ got = [c \in Conns |-> <<>>] /\ geof = [c \in Conns |-> FALSE]
+  /\ lkl = [c \in Conns |-> NoLis]
   /\ baseQ = <<>> /\ baseClosed = FALSE /\ mbase = (IF RunFirst THEN "accept" ELSE "none")
   /\ done = FALSE /\ merr = "nil" /\ once = FALSE /\ mu = "free"
   /\ routes = [p \in Prefixes |-> IF p \in PreRoutes THEN 1 ELSE 0]
-  /\ gen = [p \in Prefixes |-> IF p \in PreRoutes THEN 1 ELSE 0] /\ rret = NoLis
+  /\ gen = [p \in Prefixes |-> IF p \in PreRoutes THEN 1 ELSE 0] /\ rret = NoLis /\ rpend = ""
   /\ lex = [l \in Lis |-> l = Def \/ (l[2] = 1 /\ l[1] \in PreRoutes)] /\ ldone = [l \in Lis |-> FALSE]
   /\ lerr = [l \in Lis |-> "none"]
   /\ mon = [l \in Lis |-> IF l[2] = 1 /\ l[1] \in PreRoutes THEN "wait" ELSE "none"]
@@ -112,7 +137,7 @@ RunLock ==
   /\ RunLock_G
   /\ run' = "lis"
   /\ mu' = "run"
-  /\ UNCHANGED <<rerr, mctx, cancelled, cliV, connV, baseV, done, merr, once, routes, gen, rret, lisV, accV>>
+  /\ UNCHANGED <<rerr, mctx, cancelled, cliV, connV, baseV, done, merr, once, routes, gen, rret, rpend, lisV, accV>>
 
 \* for _, lis := range m.routes { <-lis.done } (m.mu held, so the map is stable)
 RunLis_G == run = "lis" /\ \A p \in Prefixes : routes[p] # 0 => ldone[<<p, routes[p]>>]
@@ -125,7 +150,7 @@ RunLis ==
   /\ cancelled' = TRUE
   /\ ldone' = [ldone EXCEPT ![Def] = TRUE]
   /\ lerr' = [lerr EXCEPT ![Def] = IF ldone[Def] THEN @ ELSE "Closed"]
-  /\ UNCHANGED <<mctx, cliV, connV, baseV, done, merr, once, routes, gen, rret, lex, mon, accV>>
+  /\ UNCHANGED <<mctx, cliV, connV, baseV, done, merr, once, routes, gen, rret, rpend, lex, mon, accV>>
 
 \* monitorContext: <-ctx.Done(); once.Do(base.Close; close(m.done))
 MonCtx_G == mctx = "wait" /\ cancelled
@@ -135,7 +160,7 @@ MonCtx ==
   /\ once' = TRUE
   /\ done' = IF once THEN done ELSE TRUE
   /\ baseClosed' = IF once THEN baseClosed ELSE TRUE
-  /\ UNCHANGED <<run, rerr, cancelled, cliV, connV, baseQ, mbase, merr, mu, routes, gen, rret, lisV, accV>>
+  /\ UNCHANGED <<run, rerr, cancelled, cliV, connV, baseQ, mbase, merr, mu, routes, gen, rret, rpend, lisV, accV>>
 
 \* monitorBase: one return of base.Accept (a closed listener fails first, else the queue in order)
 MonBase_G == mbase = "accept" /\ (baseClosed \/ baseQ # <<>>)
@@ -151,7 +176,7 @@ MonBase ==
             /\ done' = IF once THEN done ELSE TRUE
             /\ merr' = IF once THEN merr ELSE IF baseClosed THEN "baseClosed" ELSE "baseErr"
             /\ UNCHANGED cst
-  /\ UNCHANGED <<runV, cliV, tgt, wrapped, cons, by, got, geof, baseClosed, mu, routes, gen, rret, lisV, accV>>
+  /\ UNCHANGED <<runV, cliV, tgt, wrapped, cons, by, got, geof, lkl, baseClosed, mu, routes, gen, rret, rpend, lisV, accV>>
 
 \* monitorListener: select { <-m.done: close the listener with the mux's error; <-lis.done: }
 MonLis_G(l) == mon[l] = "wait" /\ (done \/ ldone[l])
@@ -168,7 +193,27 @@ MonDel(l) ==
   /\ MonDel_G(l)
   /\ mon' = [mon EXCEPT ![l] = "exit"]
   /\ routes' = [routes EXCEPT ![l[1]] = 0]
-  /\ UNCHANGED <<runV, cliV, connV, baseV, done, merr, once, mu, gen, rret, lex, ldone, lerr, accV>>
+  /\ UNCHANGED <<runV, cliV, connV, baseV, done, merr, once, mu, gen, rret, rpend, lex, ldone, lerr, accV>>
+
+\* Route: m.mu.Lock(); lis, ok := m.routes[prefix]; if !ok { new listener, register, go monitorListener }; Unlock.
+\* The entry is returned whatever the state of its listener: a closed listener whose monitor has not yet
+\* deleted the entry is handed out again (and nothing is registered).
+RouteCS(p) ==
+  IF routes[p] # 0
+    THEN rret' = <<p, routes[p]>> /\ UNCHANGED <<routes, gen, lex, mon>>
+    ELSE /\ gen[p] < MaxGen
+         /\ gen' = [gen EXCEPT ![p] = @ + 1]
+         /\ routes' = [routes EXCEPT ![p] = gen[p] + 1]
+         /\ rret' = <<p, gen[p] + 1>>
+         /\ lex' = [lex EXCEPT ![<<p, gen[p] + 1>>] = TRUE]
+         /\ mon' = [mon EXCEPT ![<<p, gen[p] + 1>>] = "wait"]
+\* a Route call that found m.mu held (by Run, waiting for the listeners) gets it
+RouteTake_G == rpend # "" /\ mu = "free"
+RouteTake ==
+  /\ RouteTake_G
+  /\ rpend' = ""
+  /\ RouteCS(rpend)
+  /\ UNCHANGED <<runV, cliV, connV, baseV, done, merr, once, mu, ldone, lerr, accV>>
 
 \* routeConn: io.ReadFull(conn, buf[:PrefixLen]) returns
 Read_G(c) == cst[c] = "read" /\ (sent[c] >= PrefixLen \/ ceof[c])
@@ -177,13 +222,15 @@ RouteRead(c) ==
   /\ IF sent[c] >= PrefixLen
        THEN cst' = [cst EXCEPT ![c] = "lock"] /\ cons' = [cons EXCEPT ![c] = PrefixLen]
        ELSE cst' = [cst EXCEPT ![c] = "closed"] /\ UNCHANGED cons         \* EOF before the prefix: conn.Close()
-  /\ UNCHANGED <<runV, cliV, tgt, wrapped, by, got, geof, baseV, muxV, lisV, accV>>
+  /\ UNCHANGED <<runV, cliV, tgt, wrapped, by, got, geof, lkl, baseV, muxV, lisV, accV>>
 
 \* routeConn: route lookup under m.mu; no route => default listener and a prefixConn replaying buf
 Lookup_G(c) == cst[c] = "lock" /\ mu = "free"
 RouteLookup(c) ==
   /\ Lookup_G(c)
   /\ cst' = [cst EXCEPT ![c] = "send"]
+  /\ LET live == {l \in Lis \ {Def} : l[1] = Key(c) /\ lex[l] /\ ~ldone[l]}
+     IN  lkl' = [lkl EXCEPT ![c] = IF live = {} THEN NoLis ELSE CHOOSE l \in live : TRUE]
   /\ IF Key(c) \in Prefixes /\ routes[Key(c)] # 0
        THEN tgt' = [tgt EXCEPT ![c] = <<Key(c), routes[Key(c)]>>] /\ UNCHANGED wrapped
        ELSE tgt' = [tgt EXCEPT ![c] = Def] /\ wrapped' = [wrapped EXCEPT ![c] = TRUE]
@@ -194,7 +241,7 @@ SendDone_G(c) == cst[c] = "send" /\ ldone[tgt[c]]
 RouteSendDone(c) ==
   /\ SendDone_G(c)
   /\ cst' = [cst EXCEPT ![c] = "closed"]
-  /\ UNCHANGED <<runV, cliV, tgt, wrapped, cons, by, got, geof, baseV, muxV, lisV, accV>>
+  /\ UNCHANGED <<runV, cliV, tgt, wrapped, cons, by, got, geof, lkl, baseV, muxV, lisV, accV>>
 
 \* ... case lis.Conns() <- conn: } meeting an Accept caller in its second select (Go picks any ready case)
 Meet_G(c, a) == cst[c] = "send" /\ apc[a] = "wait" /\ alis[a] = tgt[c]
@@ -204,7 +251,7 @@ Meet(c, a) ==
   /\ by' = [by EXCEPT ![c] = a]
   /\ apc' = [apc EXCEPT ![a] = "ret"]
   /\ ares' = [ares EXCEPT ![a] = <<"conn", c, "">>]
-  /\ UNCHANGED <<runV, cliV, tgt, wrapped, cons, got, geof, baseV, muxV, lisV, alis, alate>>
+  /\ UNCHANGED <<runV, cliV, tgt, wrapped, cons, got, geof, lkl, baseV, muxV, lisV, alis, alate>>
 
 \* Accept: select { case <-l.done: return nil, l.err; default: }
 AccChk_G(a) == apc[a] = "chk"
@@ -228,15 +275,15 @@ Rd(c) ==
   /\ Rd_G(c)
   /\ got' = [got EXCEPT ![c] = Stream(c)]
   /\ geof' = [geof EXCEPT ![c] = (got[c] = Stream(c))]
-  /\ UNCHANGED <<runV, cliV, cst, tgt, wrapped, cons, by, baseV, muxV, lisV, accV>>
+  /\ UNCHANGED <<runV, cliV, cst, tgt, wrapped, cons, by, lkl, baseV, muxV, lisV, accV>>
 
-Spont == \/ RunWake \/ RunLock \/ RunLis \/ MonCtx \/ MonBase
+Spont == \/ RunWake \/ RunLock \/ RunLis \/ MonCtx \/ MonBase \/ RouteTake
          \/ \E l \in Lis : MonLis(l) \/ MonDel(l)
          \/ \E c \in Conns : RouteRead(c) \/ RouteLookup(c) \/ RouteSendDone(c) \/ Rd(c)
          \/ \E c \in Conns, a \in Accs : Meet(c, a)
          \/ \E a \in Accs : AccChk(a) \/ AccDone(a)
 
-Quiescent == ~( \/ RunWake_G \/ RunLock_G \/ RunLis_G \/ MonCtx_G \/ MonBase_G
+Quiescent == ~( \/ RunWake_G \/ RunLock_G \/ RunLis_G \/ MonCtx_G \/ MonBase_G \/ RouteTake_G
                 \/ \E l \in Lis : MonLis_G(l) \/ MonDel_G(l)
                 \/ \E c \in Conns : Read_G(c) \/ Lookup_G(c) \/ SendDone_G(c) \/ Rd_G(c)
                 \/ \E c \in Conns, a \in Accs : Meet_G(c, a)
@@ -244,7 +291,7 @@ Quiescent == ~( \/ RunWake_G \/ RunLock_G \/ RunLis_G \/ MonCtx_G \/ MonBase_G
 
 (* -------------------------------- stimuli -------------------------------- *)
 
-S(k, c, n, p, g, a) == [k |-> k, c |-> c, n |-> n, p |-> p, g |-> g, a |-> a, pl |-> <<>>]
+S(k, c, n, p, g, a) == [k |-> k, c |-> c, n |-> n, p |-> p, g |-> g, a |-> a, pl |-> <<>>, b |-> 0]
 
 StimSet == {S("run", 0, 0, "", 0, 0), S("cancel", 0, 0, "", 0, 0), S("baseerr", 0, 0, "", 0, 0)}
       \cup {S("route", 0, 0, p, 0, 0) : p \in Prefixes}
@@ -253,6 +300,9 @@ StimSet == {S("run", 0, 0, "", 0, 0), S("cancel", 0, 0, "", 0, 0), S("baseerr", 
       \cup {S("cclose", c, 0, "", 0, 0) : c \in Conns}
       \cup {S("accept", 0, 0, l[1], l[2], a) : l \in Lis, a \in Accs}
       \cup {S("lclose", 0, 0, l[1], l[2], 0) : l \in Lis}
+
+\* the same stimuli flagged "the next stimulus follows without waiting for quiescence"
+BStimSet == {[s EXCEPT !.b = 1] : s \in {t \in StimSet : t.k \in BurstFirst}}
 
 Do(s) ==
   CASE s.k = "run" ->          \* go mux.Run(ctx): starts monitorContext and monitorBase, waits for m.done
@@ -265,22 +315,21 @@ Do(s) ==
          /\ ~\E i \in 1..Len(baseQ) : baseQ[i] = 0
          /\ mbase # "exit" /\ baseQ' = Append(baseQ, 0)
          /\ UNCHANGED <<runV, cliV, connV, baseClosed, mbase, muxV, lisV, accV>>
-    [] s.k = "route" ->        \* mux.Route(p) (takes m.mu): existing listener, or a new one with its monitor
-         /\ mu = "free"
-         /\ IF routes[s.p] # 0
-              THEN rret' = <<s.p, routes[s.p]>> /\ UNCHANGED <<routes, gen, lex, mon>>
-              ELSE /\ gen[s.p] < MaxGen
-                   /\ gen' = [gen EXCEPT ![s.p] = @ + 1]
-                   /\ routes' = [routes EXCEPT ![s.p] = gen[s.p] + 1]
-                   /\ rret' = <<s.p, gen[s.p] + 1>>
-                   /\ lex' = [lex EXCEPT ![<<s.p, gen[s.p] + 1>>] = TRUE]
-                   /\ mon' = [mon EXCEPT ![<<s.p, gen[s.p] + 1>>] = "wait"]
+    [] s.k = "route" ->        \* mux.Route(p): the critical section at once if m.mu is free (a call made earlier that gets
+                               \* the mutex now is the same behaviour), else the caller stays inside Route until RouteTake
+         /\ rpend = ""
+         \* model bound: the call is made only if a listener can still be created for p, or none will be
+         \* needed (the registered listener is live and the mux running, so its monitor cannot delete the entry)
+         /\ \/ gen[s.p] < MaxGen
+            \/ routes[s.p] # 0 /\ ~done /\ ~ldone[<<s.p, routes[s.p]>>] /\ mon[<<s.p, routes[s.p]>>] = "wait"
+         /\ IF mu = "free" THEN RouteCS(s.p) /\ UNCHANGED rpend
+                           ELSE rpend' = s.p /\ UNCHANGED <<routes, gen, rret, lex, mon>>
          /\ UNCHANGED <<runV, cliV, connV, baseV, done, merr, once, mu, ldone, lerr, accV>>
     [] s.k = "incoming" ->     \* a client connects: the base listener has connection c to hand out
          /\ cst[s.c] = "new" /\ \A d \in Conns : d < s.c => cst[d] # "new"
          /\ cst' = [cst EXCEPT ![s.c] = "queued"] /\ baseQ' = Append(baseQ, s.c)
          /\ pay' = [pay EXCEPT ![s.c] = s.pl]
-         /\ UNCHANGED <<runV, cliV, tgt, wrapped, cons, by, got, geof, baseClosed, mbase, muxV, lisV, accV>>
+         /\ UNCHANGED <<runV, cliV, tgt, wrapped, cons, by, got, geof, lkl, baseClosed, mbase, muxV, lisV, accV>>
     [] s.k = "write" ->        \* the client writes its next n bytes
          /\ cst[s.c] # "new" /\ ~ceof[s.c] /\ sent[s.c] + s.n <= Len(pay[s.c])
          /\ sent' = [sent EXCEPT ![s.c] = @ + s.n]
@@ -310,15 +359,19 @@ Obs == [ run   |-> <<RunClass, rerr>>,
          conns |-> [c \in Conns |-> <<ConnClass(c), IF cst[c] = "delivered" THEN tgt[c] ELSE NoLis, by[c], got[c], geof[c]>>],
          accs  |-> [a \in Accs |-> <<AccClass(a), alis[a], ares[a]>>] ]
 
+\* Gen mode, not quiescent (only after a flagged stimulus): the director is one goroutine, so it is not
+\* inside Route (rpend = ""), and it continues with a stimulus of a kind in BurstNext
 Stim == /\ nstim < lim
         /\ \E s \in Allowed :
+             /\ (Gen /\ ~Quiescent) => (s.k \in BurstNext /\ rpend = "")
              /\ Do(s)
              /\ (s.k # "incoming" => UNCHANGED pay)
              /\ hist' = IF Hist THEN Append(hist, [obs |-> Obs, stim |-> s]) ELSE hist
+             /\ bnext' = (s.b = 1)
         /\ nstim' = nstim + 1 /\ UNCHANGED lim
 
 Next == \/ (Spont /\ UNCHANGED meta)
-        \/ ((Gen => Quiescent) /\ Stim)
+        \/ ((Gen => (Quiescent \/ bnext)) /\ Stim)
 
 Spec == Init /\ [][Next]_vars
 
@@ -330,6 +383,7 @@ TypeOK ==
   /\ mu \in {"free", "run"} /\ run \in {"idle", "wait", "lock", "lis", "ret"}
   /\ \A p \in Prefixes : routes[p] \in 0..gen[p] /\ gen[p] \in 0..MaxGen
   /\ \A l \in Lis : (ldone[l] => lex[l]) /\ (mon[l] # "none" => lex[l])
+  /\ rpend \in Prefixes \cup {""}
 
 Accepted(c) == cst[c] \notin {"new", "queued"}        \* handed out by the base listener's Accept
 Delivered(c) == cst[c] = "delivered"
@@ -365,6 +419,26 @@ Transparent ==
               /\ (Quiescent => got[c] = SubSeq(pay[c], PrefixLen + 1, sent[c]))
     /\ (geof[c] => ceof[c])
     /\ ((Quiescent /\ ceof[c]) => geof[c])
+
+\* "the route registered for its first N bytes": a listener handed out by Route stays registered for its
+\* prefix until it is closed (Close, or the mux stopping); only its own monitor removes the entry, so a
+\* monitor never deletes another listener's registration and there is one monitor per entry
+Registered(l) == routes[l[1]] = l[2]
+RegistrationKept ==
+  \A l \in Lis \ {Def} :
+    /\ (lex[l] /\ ~ldone[l]) => (Registered(l) /\ mon[l] = "wait")
+    /\ mon[l] \in {"wait", "del"} => Registered(l)
+    /\ Registered(l) => (lex[l] /\ mon[l] \in {"wait", "del"})
+\* the property's routing clause, independent of the routes map: when the connection was looked up and a
+\* live (handed out by Route, not closed) listener existed for its first bytes, the connection went to that
+\* listener and to no other, in particular not to the default listener; with no live listener it went to
+\* the default listener or to a closed listener still in the map (then the mux closes it: RouteSendDone)
+RoutedByRegistration ==
+  /\ \A c \in Conns : tgt[c] # NoLis =>
+        /\ lkl[c] # NoLis => tgt[c] = lkl[c]
+        /\ lkl[c] = NoLis => (tgt[c] = Def \/ (tgt[c][1] = Key(c) /\ ldone[tgt[c]]))
+  \* at most one live listener per prefix
+  /\ \A l1, l2 \in Lis \ {Def} : (l1[1] = l2[1] /\ lex[l1] /\ ~ldone[l1] /\ lex[l2] /\ ~ldone[l2]) => l1 = l2
 
 \* after the mux has stopped every listener is closed, nobody is left blocked in Accept,
 \* and an Accept on a closed listener fails
